@@ -32,13 +32,13 @@ type c36Type struct {
 	ddl     string // type text of the column definition
 	family  string // int | float | decimal | bit | year | enum | set | date | datetime | timestamp | time | bin | str | json | geo
 	gen     func(rt *rapid.T, label string) c36Val
-	obs     func(q string) []string // observation expressions for quoted column q
-	keyOK   bool                    // may be part of a PRIMARY/UNIQUE key (equality == key equality)
-	idxOK   bool                    // may be part of a secondary index
-	prefix  int                     // > 0: index needs a prefix length (TEXT/BLOB)
-	defs    []string                // candidate DEFAULT clauses (without the keyword)
-	onUpd   string                  // optional ON UPDATE clause
-	members []string                // enum/set members
+	obs     func(q string) []string                // observation expressions for quoted column q
+	keyOK   bool                                   // may be part of a PRIMARY/UNIQUE key (equality == key equality)
+	idxOK   bool                                   // may be part of a secondary index
+	prefix  int                                    // > 0: index needs a prefix length (TEXT/BLOB)
+	defs    []string                               // candidate DEFAULT clauses (without the keyword)
+	onUpd   string                                 // optional ON UPDATE clause
+	members []string                               // enum/set members
 	hostile func(rt *rapid.T, label string) c36Val // str/bin types: a value that is sure to hold quote+backslash / a NUL byte
 }
 
@@ -938,15 +938,15 @@ var c36Comments = []string{"plain", "it's", "back\\slash", "dq \"x\"", "é中", 
 
 // gate holds which known-finding shapes must be kept out of the generated database.
 type c36Gate struct {
-	noBit          bool // C36-bit-raw-bytes: no BIT columns with non-NULL values
-	noGeoHostile   bool // C36-geometry-raw-bytes: no spatial value whose serialization contains ' or \
-	noYearZero     bool // C36-year-zero: no YEAR value 0000
-	noViewFwdDep   bool // C36-view-order: no view selecting from a view with a later name
-	noBlockTrigger bool // C36-trigger-block-no-delimiter: no BEGIN…END trigger bodies
-	noEnumDefault  bool // C36-enum-set-default: no DEFAULT on ENUM/SET columns
-	noViewComment  bool // C36-view-trailing-comment: no view body ending in a "-- comment"
-	noEarlyYear    bool // C36-date-year-below-1000: no DATE/DATETIME value with a year in 0001..0999
-	noFloatMax     bool // C36-float-max: no FLOAT value ±3.4028234e38 (the largest float32)
+	noBit          bool   // C36-bit-raw-bytes: no BIT columns with non-NULL values
+	noGeoHostile   bool   // C36-geometry-raw-bytes: no spatial value whose serialization contains ' or \
+	noYearZero     bool   // C36-year-zero: no YEAR value 0000
+	noViewFwdDep   bool   // C36-view-order: no view selecting from a view with a later name
+	noBlockTrigger bool   // C36-trigger-block-no-delimiter: no BEGIN…END trigger bodies
+	noEnumDefault  bool   // C36-enum-set-default: no DEFAULT on ENUM/SET columns
+	noViewComment  bool   // C36-view-trailing-comment: no view body ending in a "-- comment"
+	noEarlyYear    bool   // C36-date-year-below-1000: no DATE/DATETIME value with a year in 0001..0999
+	noFloatMax     bool   // C36-float-max: no FLOAT value ±3.4028234e38 (the largest float32)
 	format         string // "" = SQL dump; csv | json | parquet: restrict to what the file format carries (c36FormatTypeOK / c36FormatValueOK)
 	restricted     int    // draws replaced because of a format restriction
 	// open findings of the file-format paths (each keeps exactly its shape out of the format cases)
@@ -955,7 +955,7 @@ type c36Gate struct {
 	noParquetNullDec bool // C36-parquet-null-decimal
 	noFileGenerated  bool // C36-file-generated-column
 	noParquetDotted  bool // C36-parquet-dotted-column
-	excluded       int
+	excluded         int
 }
 
 func c36GenDB(rt *rapid.T, g *c36Gate) *c36DB {
